@@ -46,6 +46,17 @@ WRITES = {
 }
 
 
+# unusual expiry arguments travel unchanged (a negative exptime means "expire at once" to memcached; what to do with a
+# non-integer is the primary's business, not the forwarder's) - found by C18-r12-2
+for _n in ("set", "add", "replace", "append", "prepend"):
+    WRITES[_n] += [(("k", "v", -1), {}, ("k", "v", -1, True)), (("k", "v"), {"expire": 1.5, "noreply": False}, ("k", "v", 1.5, False)),
+                   (("k", "v"), {"expire": 2 ** 31}, ("k", "v", 2 ** 31, True))]
+WRITES["cas"] += [(("k", "v", b"12", -1), {}, ("k", "v", b"12", -1, True)), (("k", "v", b"12"), {"expire": 1.5}, ("k", "v", b"12", 1.5, True))]
+WRITES["touch"] += [(("k", -1), {}, ("k", -1, True)), (("k",), {"expire": 1.5}, ("k", 1.5, True))]
+WRITES["flush_all"] += [((-1,), {}, (-1, True))]
+WRITES["incr"] += [(("k", -3), {}, ("k", -3, True))]
+
+
 class FalsyHit(bytes):
     """a cached empty value: not None, but falsy"""
 
